@@ -1,5 +1,6 @@
 import Storrent.Model.Sched
 import Storrent.Lemmas.Sched
+import Storrent.Lemmas.SchedMeta
 /- The "Eek!  InFlight underflow." branch of noteInFlight is unreachable below saturation. -/
 namespace Storrent.Sched
 
@@ -118,6 +119,11 @@ theorem step_under_other (s : State) (op : Op) (hop : ∀ (x : Unit), op ≠ Op.
           · split <;> exact ⟨rfl, id⟩
           · exact ⟨rfl, id⟩
     | finalise idx =>
+      simp only []
+      split
+      · exact ⟨rfl, id⟩
+      · split <;> exact ⟨rfl, id⟩
+    | metaComplete =>
       simp only []
       split
       · exact ⟨rfl, id⟩
@@ -324,9 +330,11 @@ theorem step_uinv (s : State) (op : Op) (hI : Inv s) (hU : UInv s) : UInv (step 
       · rw [hp'] at h; cases h
       · exact Or.inr (h2 h)
 
-theorem run_inv_uinv (ops : List Op) : ∀ (s : State), Inv s → UInv s → UInv (run s ops) := by
+theorem run_inv_uinv (ops : List Op) : ∀ (s : State), Inv s → MInv s → UInv s → UInv (run s ops) := by
   induction ops with
-  | nil => intro s _ h; exact h
-  | cons op ops ih => intro s hI hU; exact ih _ (step_inv s op hI) (step_uinv s op hI hU)
+  | nil => intro s _ _ h; exact h
+  | cons op ops ih =>
+    intro s hI hM hU
+    exact ih _ (step_inv s op hI hM) (step_minv s op hM) (step_uinv s op hI hU)
 
 end Storrent.Sched
